@@ -390,9 +390,10 @@ def seq_slice(v: V, lo, hi, st) -> V:
         n = z3.If(hi2 > lo2, hi2 - lo2, 0)
         return V(t, z3.SubString(v.z, lo2, n))
     if is_str(t) and t.view == "opaque":
-        r = fresh(t, "sub")
+        r = V(t, text_sub()(v.z, lo2, z3.If(hi2 > lo2, hi2, lo2)))
         st.assume(seq_len(r) == z3.If(hi2 > lo2, hi2 - lo2, 0))
         st.assume(z3.Implies(z3.And(lo2 == 0, hi2 == ln), r.z == v.z))
+        st.assume(z3.Implies(hi2 <= lo2, r.z == T.text_empty()))
         return r
     r = fresh(t, "sl")
     n = z3.If(hi2 > lo2, hi2 - lo2, 0)
@@ -400,6 +401,11 @@ def seq_slice(v: V, lo, hi, st) -> V:
     i = z3.Int(T.fresh_name("qs"))
     st.assume(forall([i], z3.Implies(z3.And(0 <= i, i < n), z3.Select(seq_arr(r), i) == z3.Select(seq_arr(v), i + lo2))))
     return r
+
+
+def text_sub():
+    s = T.Text.sort()
+    return T._dt("Text.sub", lambda: z3.Function("tx_sub", s, z3.IntSort(), z3.IntSort(), s))
 
 
 def seq_concat(a: V, b: V, st) -> V:
@@ -421,9 +427,19 @@ def seq_concat(a: V, b: V, st) -> V:
     return r
 
 
-def list_append(lst: V, item: V) -> V:
+def list_append(lst: V, item: V, st=None) -> V:
     ln = seq_len(lst)
-    return mk_seq(lst.ty, z3.Store(seq_arr(lst), ln, item.z), ln + 1)
+    if st is None or MODE["bounded"] is not None or z3.is_int_value(z3.simplify(ln)):
+        return mk_seq(lst.ty, z3.Store(seq_arr(lst), ln, item.z), ln + 1)
+    # axiomatised append with triggers on both lists, so that quantified facts about the old list reach
+    # the new one (and back) by E-matching
+    r = fresh(lst.ty, "app")
+    j = z3.Int(T.fresh_name("qa"))
+    st.assume(seq_len(r) == ln + 1)
+    st.assume(z3.ForAll([j], z3.Implies(z3.And(0 <= j, j < ln), z3.Select(seq_arr(r), j) == z3.Select(seq_arr(lst), j)),
+                        patterns=[z3.Select(seq_arr(r), j), z3.Select(seq_arr(lst), j)]))
+    st.assume(z3.Select(seq_arr(r), ln) == item.z)
+    return r
 
 
 def seq_index(v: V, idx, st, obl=None, math=False) -> V:
